@@ -309,6 +309,19 @@ def r4_order_shortcircuit_zero(ctx):
         else:
             ctx.bad("order|binary#%d" % n, ev.where(r.block), "the right operand can be evaluated before (or without) the left operand")
     ctx.floor("right-operand evaluation sites", n, 3)
+    # indexing: the array expression is evaluated (or, for a variable, read) before the index expression
+    idx_evals = [c for c in ev.calls() if c.callee in (EV, "runtime::Runtime::eval_index_value") and "Index.index" in sh(ne(ev.deep(c.args[1])))]
+    arr_evals = [c for c in ev.calls() if (c.callee == EV and "Index.array" in sh(ne(ev.deep(c.args[1])))) or
+                 ((c.callee or "").split("::")[-1] in ("lookup_local", "lookup_var", "lookup_local_ref", "lookup_var_ref", "bound_expr_local") and "Index.array" in " ".join(sh(ne(ev.deep(a))) for a in c.args))]
+    m = 0
+    for c in idx_evals:
+        m += 1
+        real = [a for a in arr_evals if (a.callee or "").split("::")[-1] != "bound_expr_local"]
+        if any(ev.dominates(a.block, c.block) and a.block != c.block for a in real):
+            ctx.ok("order|index#%d" % m, ev.where(c.block), "the array operand is evaluated before the index")
+        else:
+            ctx.bad("order|index#%d" % m, ev.where(c.block), "the index expression of `a[i]` can be evaluated before the array operand is evaluated/read: an index expression that mutates the array (a call that pushes, pops, reverses) sees the wrong element")
+    ctx.floor("index-operand evaluation sites", m, 1)
     # short circuit
     def n_evals(p):
         return sum(1 for e in p["events"] if e[0] == "call" and e[1] == EV)
